@@ -204,6 +204,9 @@ pub struct Case {
     /// were created by the role holder of that time, *before* the role-transfer history ran
     #[serde(default)]
     pub prepared_by_earlier_holder: bool,
+    /// the gateway and the gas service were deployed with one address holding both of their roles
+    #[serde(default)]
+    pub single_key: bool,
 }
 
 #[derive(Clone)]
@@ -390,7 +393,7 @@ fn prepares_early(case: &Case) -> bool {
 }
 
 fn build(case: &Case) -> (Sys<'static>, RoleModel) {
-    let s = build_sys();
+    let s = build_sys_cfg(case.single_key);
     let mut m = RoleModel { holder: Default::default(), former: Default::default() };
     for r in ROLES {
         m.holder.insert(r, r.initial());
@@ -462,7 +465,7 @@ impl Property for C06 {
         "C06"
     }
     fn rule(&self) -> &'static str {
-        "every case = (role-transfer history over the 6 transferable roles of the 5 role-bearing contracts, one of 29 administrative entry points, for role transfers the named successor being an uninvolved account / the called contract itself / another contract / the current holder, optionally with the objects the call acts on (operator, minter, trusted chain, open migration window, held fees) created before the history by the holder of that time, one of 7 principal classes: current holder, former holder, holder of another role, beneficiary named in the arguments, stranger, nobody, holder-authorised-other-arguments). The full 29x7 matrix with an empty history is enumerated in every run (fixed cases), once in the ordinary state and once with the contract's migration window open (upgraded, not yet migrated); for the idempotent entry points (role transfers, add/remove minter, upgrade) also the variant in which the same change was already applied once; proptest adds histories of 1-5 transfers (incl. to self, to the other role's holder, and back). Engine: the authorisation trees the call needs are recorded in a twin world with all auths mocked, then replayed in a fresh identical world in which exactly one principal signs the tree recorded for the role holder. Oracle: role model: success iff that principal is the current holder (and signed these exact arguments); refusals must leave the ledger snapshot identical; after an accepted transfer the role query names exactly the successor. non-trivial = principal is not simply the initial holder (principal class != Holder, or history non-empty); distinct by Debug hash. A share of the random cases is an entry-point sweep (the exported functions of all shipped contracts are read from the sources of the tree under test; entry points absent from the pinned inventory get 300 deterministic cases each and half of the random sweep cases): one entry point is called on a fully deployed system (gateway, gas service, operators, token service with a deployed token owned by the service, stand-alone token, upgrader, example app; some contracts optionally upgraded-but-not-migrated) with arguments from pools of principals / contracts / tokens / names / ids / boundary amounts, every require_auth satisfied by the host's mock and recorded; cases where the mock let a contract sign are discarded; oracle: a change of any contract's owner, of the gateway operator, of the operator set, of the trusted chains or of a token's minters needs the current holder of the governing role among the recorded signers (or to be the called contract); non-trivial = the call succeeded"
+        "every case = (role-transfer history over the 6 transferable roles of the 5 role-bearing contracts, one of 29 administrative entry points, for role transfers the named successor being an uninvolved account / the called contract itself / another contract / the current holder, optionally with the objects the call acts on (operator, minter, trusted chain, open migration window, held fees) created before the history by the holder of that time, deployments in which one address holds both roles of the gateway and of the gas service (each role must then move, or stay, on its own), one of 7 principal classes: current holder, former holder, holder of another role, beneficiary named in the arguments, stranger, nobody, holder-authorised-other-arguments). The full 29x7 matrix with an empty history is enumerated in every run (fixed cases), once in the ordinary state and once with the contract's migration window open (upgraded, not yet migrated); for the idempotent entry points (role transfers, add/remove minter, upgrade) also the variant in which the same change was already applied once; proptest adds histories of 1-5 transfers (incl. to self, to the other role's holder, and back). Engine: the authorisation trees the call needs are recorded in a twin world with all auths mocked, then replayed in a fresh identical world in which exactly one principal signs the tree recorded for the role holder. Oracle: role model: success iff that principal is the current holder (and signed these exact arguments); refusals must leave the ledger snapshot identical; after an accepted transfer the role query names exactly the successor. non-trivial = principal is not simply the initial holder (principal class != Holder, or history non-empty); distinct by Debug hash. A share of the random cases is an entry-point sweep (the exported functions of all shipped contracts are read from the sources of the tree under test; entry points absent from the pinned inventory get 300 deterministic cases each and half of the random sweep cases): one entry point is called on a fully deployed system (gateway, gas service, operators, token service with a deployed token owned by the service, stand-alone token, upgrader, example app; some contracts optionally upgraded-but-not-migrated) with arguments from pools of principals / contracts / tokens / names / ids / boundary amounts, every require_auth satisfied by the host's mock and recorded; cases where the mock let a contract sign are discarded; oracle: a change of any contract's owner, of the gateway operator, of the operator set, of the trusted chains or of a token's minters needs the current holder of the governing role among the recorded signers (or to be the called contract); non-trivial = the call succeeded"
     }
     fn fixed_is_exhaustive(&self) -> Option<&'static str> {
         Some("entry-point x principal matrix (29 x 7) with empty role history enumerated completely; histories sampled")
@@ -479,8 +482,9 @@ impl Property for C06 {
             prop_oneof![3 => Just(false), 1 => Just(true)],
             prop_oneof![5 => Just(0u8), 1 => Just(1u8), 1 => Just(2u8), 1 => Just(3u8)],
             prop_oneof![2 => Just(false), 1 => Just(true)],
+            prop_oneof![3 => Just(false), 1 => Just(true)],
         )
-            .prop_map(|(mut history, ep, principal, pre_applied, window_open, successor, prepared_by_earlier_holder)| {
+            .prop_map(|(mut history, ep, principal, pre_applied, window_open, successor, prepared_by_earlier_holder, single_key)| {
                 // bias the history toward the studied role
                 let r = ROLES.iter().position(|r| *r == ep.role()).unwrap() as u8;
                 for (i, x) in history.iter_mut().enumerate() {
@@ -488,26 +492,31 @@ impl Property for C06 {
                         x.role = r;
                     }
                 }
-                Case { history, ep, principal, pre_applied, window_open, sweep: None, successor, prepared_by_earlier_holder }
+                Case { history, ep, principal, pre_applied, window_open, sweep: None, successor, prepared_by_earlier_holder, single_key }
             })
             .boxed();
         match crate::sweep::strategy(crate::sweep::Rule::Roles) {
-            Some(sw) => prop_oneof![2 => direct, 1 => sw.prop_map(|s| Case { history: vec![], ep: EPS[0], principal: PRINCIPALS[0], pre_applied: false, window_open: false, sweep: Some(s), successor: 0, prepared_by_earlier_holder: false })].boxed(),
+            Some(sw) => prop_oneof![2 => direct, 1 => sw.prop_map(|s| Case { history: vec![], ep: EPS[0], principal: PRINCIPALS[0], pre_applied: false, window_open: false, sweep: Some(s), successor: 0, prepared_by_earlier_holder: false, single_key: false })].boxed(),
             None => direct,
         }
     }
     fn fixed_cases(&self, _tier: Tier) -> Vec<Case> {
-        let mut v: Vec<Case> = crate::sweep::fixed_cases(300).into_iter().map(|s| Case { history: vec![], ep: EPS[0], principal: PRINCIPALS[0], pre_applied: false, window_open: false, sweep: Some(s), successor: 0, prepared_by_earlier_holder: false }).collect();
+        let mut v: Vec<Case> = crate::sweep::fixed_cases(300).into_iter().map(|s| Case { history: vec![], ep: EPS[0], principal: PRINCIPALS[0], pre_applied: false, window_open: false, sweep: Some(s), successor: 0, prepared_by_earlier_holder: false, single_key: false }).collect();
         for ep in EPS {
             for p in PRINCIPALS {
-                v.push(Case { history: vec![], ep, principal: p, pre_applied: false, window_open: false, sweep: None, successor: 0, prepared_by_earlier_holder: false });
-                v.push(Case { history: vec![], ep, principal: p, pre_applied: false, window_open: true, sweep: None, successor: 0, prepared_by_earlier_holder: false });
+                v.push(Case { history: vec![], ep, principal: p, pre_applied: false, window_open: false, sweep: None, successor: 0, prepared_by_earlier_holder: false, single_key: false });
+                v.push(Case { history: vec![], ep, principal: p, pre_applied: false, window_open: true, sweep: None, successor: 0, prepared_by_earlier_holder: false, single_key: false });
                 if ep.idempotent() {
-                    v.push(Case { history: vec![], ep, principal: p, pre_applied: true, window_open: false, sweep: None, successor: 0, prepared_by_earlier_holder: false });
+                    v.push(Case { history: vec![], ep, principal: p, pre_applied: true, window_open: false, sweep: None, successor: 0, prepared_by_earlier_holder: false, single_key: false });
+                }
+                if matches!(ep, Ep::GasCollectFees | Ep::GasRefund | Ep::GwRotateBypass | Ep::GwTransferOperatorship | Ep::GasTransferOwnership | Ep::GwTransferOwnership) {
+                    // one address held both roles at deployment; the owner role has since moved on
+                    v.push(Case { history: vec![Xfer { role: 0, to: 8 }, Xfer { role: 2, to: 8 }], ep, principal: p, pre_applied: false, window_open: false, sweep: None, successor: 0, prepared_by_earlier_holder: false, single_key: true });
+                    v.push(Case { history: vec![], ep, principal: p, pre_applied: false, window_open: false, sweep: None, successor: 0, prepared_by_earlier_holder: false, single_key: true });
                 }
                 if ep.is_transfer().is_some() {
                     for successor in 1..4u8 {
-                        v.push(Case { history: vec![], ep, principal: p, pre_applied: false, window_open: false, sweep: None, successor, prepared_by_earlier_holder: false });
+                        v.push(Case { history: vec![], ep, principal: p, pre_applied: false, window_open: false, sweep: None, successor, prepared_by_earlier_holder: false, single_key: false });
                     }
                 }
             }
